@@ -157,6 +157,10 @@ class SubsetGroup(HubListener):
         for s in list(self.subsets):
             if s.data is data:
                 self.subsets.remove(s)
+                # The removed dataset should not keep a member of this group,
+                # otherwise it ends up with two if it is added back later.
+                if s in data.subsets:
+                    data._subsets.remove(s)
 
     def register_to_hub(self, hub):
 
